@@ -407,7 +407,15 @@ func lexer(in string) (<-chan token, <-chan error) {
 		off := 0
 		content := in
 
+		// text in front of content that belongs to the string token under
+		// construction: what preceded the escapes $$ and $} found so far
+		var pending strings.Builder
+
 		defer func() {
+			if pending.Len() > 0 {
+				pending.WriteString(content)
+				content = pending.String()
+			}
 			if len(content) > 0 {
 				lex <- token{tokString, content}
 			}
@@ -417,6 +425,11 @@ func lexer(in string) (<-chan token, <-chan error) {
 		}()
 
 		strToken := func(s string) {
+			if pending.Len() > 0 {
+				pending.WriteString(s)
+				s = pending.String()
+				pending.Reset()
+			}
 			if s != "" {
 				lex <- token{tokString, s}
 			}
@@ -471,7 +484,11 @@ func lexer(in string) (<-chan token, <-chan error) {
 					off++
 					varcount++
 				case '$', '}': // escape $} and $$
-					content = content[:idx] + content[off:]
+					// drop the '$', keep the escaped character as text (the
+					// text is cut here, not rebuilt: linear in its length)
+					pending.WriteString(content[:idx])
+					content = content[off:]
+					off = 1
 					continue
 				default:
 					continue
